@@ -1937,3 +1937,27 @@ def _hm_len(ex, c):
     if isinstance(m, KMap):
         return bv_const(len(m.d), "usize")
     raise Unsupported("len of a non-concrete-key map")
+
+
+@summary("core::slice::starts_with")
+def _slice_starts_with(ex, c):
+    a, b = deref(ex, c.args[0]), deref(ex, c.args[1])
+    if not (isinstance(a, Seq) and isinstance(b, Seq)):
+        raise Unsupported("starts_with on non-sequences")
+    if len(b.items) > len(a.items):
+        return Bool(False)
+    if not b.items:
+        return Bool(True)
+    return Bool(z3.And([x.t == y.t for x, y in zip(a.items, b.items)]))
+
+
+@summary("core::slice::ends_with")
+def _slice_ends_with(ex, c):
+    a, b = deref(ex, c.args[0]), deref(ex, c.args[1])
+    if not (isinstance(a, Seq) and isinstance(b, Seq)):
+        raise Unsupported("ends_with on non-sequences")
+    if len(b.items) > len(a.items):
+        return Bool(False)
+    if not b.items:
+        return Bool(True)
+    return Bool(z3.And([x.t == y.t for x, y in zip(a.items[len(a.items) - len(b.items):], b.items)]))
